@@ -97,9 +97,10 @@ Definition np_len (h : how) (ls : list nat) : option nat :=
            end
   end.
 
-(* ---------------- numpy arm of _df_reindex: align at the end *)
-Definition np_align (n : nat) (a : list cell) : list cell :=
-  if Nat.ltb n (length a) then skipn (length a - n) a else repeat None (n - length a) ++ a.
+(* ---------------- numpy arm of _df_reindex: align at the end (rows of a 1-d or 2-d array) *)
+Definition np_align_g {A} (pad : A) (n : nat) (a : list A) : list A :=
+  if Nat.ltb n (length a) then skipn (length a - n) a else repeat pad (n - length a) ++ a.
+Definition np_align (n : nat) (a : list cell) : list cell := np_align_g None n a.
 Fixpoint arr_ffill (prev : cell) (a : list cell) : list cell :=
   match a with
   | [] => []
@@ -112,12 +113,27 @@ Fixpoint arr_bfill (a : list cell) : list cell :=
   end.
 Definition arr_fill (m : method) (a : list cell) : list cell :=
   match m with MNone => a | MFfill => arr_ffill None a | MBfill => arr_bfill a end.
+(* 2-d arrays (rows of k cells): df_fillna goes through pd.DataFrame(arr), i.e. fills column by column *)
+Definition keep_or (cp : cell * cell) : cell := match fst cp with None => snd cp | Some _ => fst cp end.
+Fixpoint arr2_ffill (prev : list cell) (rows : list (list cell)) : list (list cell) :=
+  match rows with
+  | [] => []
+  | r :: rest => let r' := map keep_or (combine r prev) in r' :: arr2_ffill r' rest
+  end.
+Fixpoint arr2_bfill (k : nat) (rows : list (list cell)) : list (list cell) :=
+  match rows with
+  | [] => []
+  | r :: rest => let rest' := arr2_bfill k rest in map keep_or (combine r (hd (repeat None k) rest')) :: rest'
+  end.
+Definition arr2_fill (m : method) (k : nat) (rows : list (list cell)) : list (list cell) :=
+  match m with MNone => rows | MFfill => arr2_ffill (repeat None k) rows | MBfill => arr2_bfill k rows end.
 
 (* ---------------- objects and nested containers *)
 Inductive obj :=
 | OS (s : gts cell)                                (* pd.Series *)
 | OF (cols : list Z) (rows : gts (list cell))     (* pd.DataFrame: column names, one row per timestamp *)
 | OA (a : list cell)                               (* 1-d float ndarray *)
+| OA2 (k : nat) (rows : list (list cell))          (* 2-d float ndarray of shape (length rows, k) *)
 | ON (c : cell)                                    (* numeric scalar *)
 | OX (id : Z).                                     (* any other object (str, None, ...), opaque, identified by id *)
 
@@ -152,7 +168,7 @@ Definition obj_index (o : obj) : option (list Z) :=
 Definition pd_indexes (os : list obj) : list (list Z) :=
   flat_map (fun o => match obj_index o with Some i => [i] | None => [] end) os.
 Definition arr_lens (os : list obj) : list nat :=
-  flat_map (fun o => match o with OA a => [length a] | _ => [] end) os.
+  flat_map (fun o => match o with OA a => [length a] | OA2 _ r => [length r] | _ => [] end) os.
 
 (* what df_index returns: nothing, a pandas index, or a numpy length *)
 Inductive target := TgNone | TgIdx (i : list Z) | TgLen (n : nat).
@@ -171,6 +187,7 @@ Definition reindex_obj (tg : target) (m : method) (o : obj) : obj :=
   | TgIdx i, OS s => OS (reindex_m None is_nan m s i)
   | TgIdx i, OF c r => OF c (reindex_m (nanrow c) row_isnan m r i)
   | TgLen n, OA a => OA (arr_fill m (np_align n a))
+  | TgLen n, OA2 k r => OA2 k (arr2_fill m k (np_align_g (repeat None k) n r))   (* rows only; the k columns are untouched *)
   | _, _ => o
   end.
 
